@@ -19,6 +19,15 @@ Layers run here (DESIGN.md section 1.2 and "C20"):
         effect is visible in the output shows the marker of the winning layer and no other marker, and the
         output equals the output for the flattened (single-layer) configuration the oracle computed.
 
+  * expand model (coq/proofs/ConfigExpand.v, theorems C20_expand_uses_merged / C20_expand_layers_congruent): a Gallina
+    model of emmet.expand(abbr, config, global_config) = config_init, then decoding of the merged dictionaries into the
+    configuration records of the pipeline models, then the markup / stylesheet pipeline model.  It is executed on every
+    case that goes through expand: resolved type markup (or any non-stylesheet name) through the extracted model
+    (coq/run/CfgexpandRun.v; every such case), resolved type stylesheet inside Coq (coq/run/CfgexpandShow.v; the
+    stylesheet pipeline model uses floats) -- every case in the thorough tier, a seeded sample covering every
+    (syntax name, section) in the quick tier; compared: the output string, resp. the error class.  The values of the
+    built-in tables come from coq/gen/GenConfigVals.v, regenerated from emmet/config.py on every run.
+
 THE TABLE (exhaustive, `exhaustive: true`): for each abbreviation type, every syntax name of
   known    SYNTAXES[type]
   cross    the syntaxes of the other type (not syntaxes of this type; table keys like 'sass' apply as written)
@@ -56,6 +65,7 @@ import os
 import common
 from common import enc_str, enc_list, Reader
 import config_util as cu
+import cfgexpand_util as xu
 
 SECTIONS = cu.SECTIONS                     # ('variables', 'snippets', 'options')
 LAYERS = ['Default', 'TypeDefaults', 'SyntaxDefaults', 'TypeOverride', 'SyntaxOverride', 'User']
@@ -396,7 +406,8 @@ def observe_expand(tb, case, ty, syn, expected, installed, patches, fails):
     abbr = case['abbr']
     user, glob_ = materialize(tb, case)
     user0, glob0 = copy.deepcopy(user), copy.deepcopy(glob_)
-    out = outcome(lambda: emmet.expand(abbr, user, glob_))
+    rich = xu.rich_outcome(lambda: emmet.expand(abbr, user, glob_))     # one call, two views of its outcome
+    out = ('ok', rich[1]) if rich[0] == 'ok' else ('exc', rich[3] if rich[0] == 'err' else rich[1])
     m = tb.modified(installed, patches)
     if m:
         fails.append(('purity', 'expand(%r, ...) modified the built-in table %s' % (abbr, m)))
@@ -443,7 +454,7 @@ def observe_expand(tb, case, ty, syn, expected, installed, patches, fails):
             shown = [mk for mk in MARKERS if mk in out[1]]
             if shown:
                 fails.append(('expand', 'expand(%r) = %r shows %r although no layer defines %s[%r]' % (abbr, out[1], shown, sec, key)))
-    return {'out': out, 'visible': vis}
+    return {'out': out, 'visible': vis, 'rich': rich[:3]}
 
 
 # ------------------------------------------------------------------ the table
@@ -632,6 +643,10 @@ def gen_random(ctx, tb, n):
                 patches.append((1, rng.choice([rty, rsyn, rsyn, 'zzother']), sec, k, rng.choice(MARKERS)))
         c = mk_case('random', ty, syn, user, glob_, patches)
         c['class'] = class_of(tb, rty, rsyn)
+        if 'context' not in user and rng.random() < 0.5:
+            # also through expand(): the oracle compares with the flattened configuration, the expand model
+            # (proofs/ConfigExpand.v) with its own result (values of undocumented types are outside the model)
+            c['abbr'] = 'p10+zzq' if rty == 'stylesheet' else rng.choice(['div>p', 'ul>li*2', 'a+br', 'p{${zzv}}', 'zzq>a:link'])
         cases.append(c)
     return cases
 
@@ -741,7 +756,7 @@ def summarize(tb, case, res, rng, with_model):
     kind = case['kind']
     ty, syn = resolved_names(tb, case)
     sm = {'failures': res['failures'][:4], 'fatal': res['fatal'], 'expand': res['expand'], 'patterns': res['patterns'],
-          'cell_pat': None, 'sample': None, 'unknown_snap': None, 'model': None, 'spec': []}
+          'cell_pat': None, 'sample': None, 'unknown_snap': None, 'model': None, 'spec': [], 'xmodel': None}
     if kind.startswith('cell'):
         sec, key = case['sec'], case['key']
         e = (res['expected'] or {}).get(sec, {}).get(key)
@@ -762,6 +777,16 @@ def summarize(tb, case, res, rng, with_model):
             secs = [case['sec']] if case.get('sec') else list(SECTIONS)
             w = wire_init(tb, res['eff'], ids, secs)
             sm['model'] = ('init', w, secs, impl_ids(ids, res['obs'], secs))
+        if res['expand'] is not None:
+            # the EXPAND model (proofs/ConfigExpand.v): extracted for a markup type, evaluated inside Coq for the
+            # stylesheet type (its pipeline model uses floats)
+            try:
+                if ty == 'stylesheet':
+                    sm['xmodel'] = ('coq', xu.coq_case(tb, res['eff'], case['abbr']))
+                else:
+                    sm['xmodel'] = ('wire', xu.wire_expand(tb, res['eff'], case['abbr']))
+            except Exception as e:           # a value shape the encoders do not know: reported, not hidden
+                sm['xmodel'] = ('unencodable', repr(e)[:200])
         if kind in ('natural', 'random', 'corpus', 'aliased') and res['expected']:
             # the SPEC's own answer (spec_lookup) for sampled keys, against the oracle
             for sec in SECTIONS:
@@ -787,7 +812,27 @@ def worker(arg):
     return out
 
 
-def run_cases(ctx, tb, model, cases, label, pool):
+XSTATE = {'coq': []}      # stylesheet cases collected for the in-Coq evaluation at the end of the run
+
+
+def expand_corr(ctx):
+    return ctx.cov['correspondence'].setdefault('expand_model', {
+        'markup_cases_extracted_model': 0, 'stylesheet_cases_in_coq': 0, 'stylesheet_cases_not_sampled': 0,
+        'disagreements': 0, 'outside_model': 0, 'unencodable': 0})
+
+
+def expand_disagree(ctx, case, sm, got, where):
+    xc = expand_corr(ctx)
+    xc['disagreements'] += 1
+    if xc['disagreements'] <= 5:
+        ctx.say('DISAGREE expand model (%s) case %s\n  impl %r\n  model %r' % (
+            where, json.dumps(case)[:400], sm['expand']['rich'], got))
+    if not sm['failures']:
+        ctx.broken.append({'kind': 'correspondence', 'file': 'config-expand-model-' + where, 'input': json.dumps(case)[:600],
+                           'impl': repr(sm['expand']['rich'])[:300], 'model': repr(got)[:300]})
+
+
+def run_cases(ctx, tb, model, cases, label, pool, xmodel=None):
     if not cases:
         return
     size = max(20, min(400, len(cases) // (4 * common.NPROC) + 1))
@@ -820,6 +865,33 @@ def run_cases(ctx, tb, model, cases, label, pool):
             for sp in sm['spec']:
                 wires.append(sp[2])
                 metas.append(('spec', case, sm, sp))
+    if xmodel is not None:
+        xw, xm = [], []
+        for case, sm in zip(cases, sums):
+            x = sm.get('xmodel')
+            if x is None:
+                continue
+            if x[0] == 'wire':
+                xw.append(x[1])
+                xm.append((case, sm))
+            elif x[0] == 'coq':
+                XSTATE['coq'].append((case, sm, x[1]))
+            else:
+                expand_corr(ctx)['unencodable'] += 1
+        xouts = []
+        for start in range(0, len(xw), 4000):
+            part = xw[start:start + 4000]
+            xouts += xmodel.run(part, procs=max(1, min(common.NPROC, len(part))))
+        xc = expand_corr(ctx)
+        for (case, sm), w in zip(xm, xouts):
+            got = xu.decode_expand(w)
+            xc['markup_cases_extracted_model'] += 1
+            if got == ('outside',):
+                xc['outside_model'] += 1
+                if case['kind'].startswith('cell'):      # the table's cells are inside the model by construction
+                    expand_disagree(ctx, case, sm, got, 'extracted')
+            elif not xu.agree(tuple(sm['expand']['rich']), got):
+                expand_disagree(ctx, case, sm, got, 'extracted')
     if model is None:
         return
     n_dis = n_cmp = n_spec = 0
@@ -854,6 +926,40 @@ def run_cases(ctx, tb, model, cases, label, pool):
     c['cases'] += n_cmp
     c['disagreements'] += n_dis
     c['spec_lookups'] += n_spec
+
+
+def coq_expand_tie(ctx, thorough):
+    """The stylesheet cases of the run through the FULL expand model, evaluated inside Coq (the stylesheet pipeline
+    model uses floats): all of them in the thorough tier, a seeded sample that covers every (syntax name, section)
+    in the quick tier."""
+    items = XSTATE['coq']
+    xc = expand_corr(ctx)
+    if not items:
+        return
+    if thorough or os.environ.get('C20_EXPAND_ALL') == '1':
+        chosen = list(range(len(items)))
+    else:
+        groups = {}
+        for n, (case, sm, term) in enumerate(items):
+            groups.setdefault((case['type'], case['syntax'], case.get('sec'), case['kind']), []).append(n)
+        chosen = []
+        for k in sorted(groups, key=repr):
+            g = groups[k]
+            chosen += ctx.rng.sample(g, min(4, len(g)))
+        budget = int(os.environ.get('C20_EXPAND_QUICK', '160'))
+        if len(chosen) > budget:
+            chosen = sorted(ctx.rng.sample(chosen, budget))
+    xc['stylesheet_cases_not_sampled'] += len(items) - len(chosen)
+    outs = xu.coq_eval([items[n][2] for n in chosen], 'cfgx', shard=max(2, min(40, len(chosen) // (2 * common.NPROC) + 1)))
+    for n, got in zip(chosen, outs):
+        case, sm, _ = items[n]
+        xc['stylesheet_cases_in_coq'] += 1
+        if got == ('outside',):
+            xc['outside_model'] += 1
+            if case['kind'].startswith('cell'):
+                expand_disagree(ctx, case, sm, got, 'in-coq')
+        elif not xu.agree(tuple(sm['expand']['rich']), got):
+            expand_disagree(ctx, case, sm, got, 'in-coq')
 
 
 def diff_repr(i, m):
@@ -901,10 +1007,13 @@ def cover_case(ctx, tb, case, sm):
 
 def run(ctx):
     thorough = ctx.tier == 'thorough'
-    ok = ctx.build(['props/C20.vo', 'run/ConfigRun.vo'])
+    ok = ctx.build(['props/C20.vo', 'run/ConfigRun.vo', 'run/CfgexpandRun.vo', 'run/CfgexpandShow.vo',
+                    'proofs/ConfigExpandCss.vo'])
     if ok:
         ctx.obligations('props/C20.v')
     model = ctx.model('config') if ok else None
+    xmodel = ctx.model('cfgexpand') if ok else None
+    XSTATE['coq'] = []
     tb = Tables()
     if tb.ids is None:       # the tables have a shape the value abstraction does not know: still run the oracle
         ctx.say('value ids unavailable (%s): model comparison skipped' % tb.ids_error)
@@ -931,11 +1040,21 @@ def run(ctx):
         % (sorted(k for k in tb.base['SYNTAX_CONFIG'] if not any(k in v for v in tb.base['SYNTAXES'].values())),
            UNKNOWN_NAMES, {'%s/%s' % k: v[:2] for k, v in VISIBLE.items()}, n_rand))
     with multiprocessing.Pool(common.NPROC) as pool:
-        run_cases(ctx, tb, model, corpus, 'corpus', pool)
-        run_cases(ctx, tb, model, table, 'table', pool)
-        run_cases(ctx, tb, model, natural, 'natural', pool)
-        run_cases(ctx, tb, model, aliased, 'aliased', pool)
-        run_cases(ctx, tb, model, rnd, 'random', pool)
+        if tb.ids is None:
+            xmodel = None
+        run_cases(ctx, tb, model, corpus, 'corpus', pool, xmodel)
+        run_cases(ctx, tb, model, table, 'table', pool, xmodel)
+        run_cases(ctx, tb, model, natural, 'natural', pool, xmodel)
+        run_cases(ctx, tb, model, aliased, 'aliased', pool, xmodel)
+        run_cases(ctx, tb, model, rnd, 'random', pool, xmodel)
+    if xmodel is not None:
+        coq_expand_tie(ctx, thorough)
+    ctx.cov['additional_theorems'] = [
+        'proofs/ConfigExpandCss.v expand_model_layers_congruent: the expand model with the REAL stylesheet pipeline model in '
+        'its stylesheet branch gives equal results for layer stacks with equal effective lookups (instance of '
+        'C20_expand_layers_congruent; compiled with the build; depends on the kernel PrimFloat/Uint63 primitives only)',
+        'proofs/ConfigExpandCss.v expand_model_markup_branch: for a resolved type other than stylesheet the extracted '
+        'markup half computes the full expand model']
     if tb.modified_strict():
         ctx.property_failure('purity:tables-after-run', 'purity: the built-in tables differ (type-strict comparison) after the run',
                              {'component': 'config', 'case': None, 'why': ['strict snapshot differs']})
@@ -960,15 +1079,43 @@ def run(ctx):
     ]
 
 
+def _replay_alone(case):
+    tb = Tables()
+    return [(c, t) for c, t in observe(tb, case)['failures'][:5]]
+
+
 def replay(ctx, obj):
     rp = obj.get('replay', obj)
     case = rp.get('case')
     if not case:
         print('replay names a broken obligation, no input: %s' % json.dumps(rp)[:500])
         return 1
+    # the call alone, in a process of its own (so that it cannot leave anything behind for the second look)
+    with multiprocessing.get_context('fork').Pool(1) as pool:
+        alone = pool.apply(_replay_alone, (case,))
+    if alone:
+        for clause, text in alone:
+            print('%s: %s' % (clause, text))
+        return 1
+    # a failure that needs earlier calls in the same process (a memo keyed too coarsely, ...): the run saw the case
+    # after its neighbours of the table; replay them (same syntax name, both types) in this still pristine process and
+    # then look at the case
     tb = Tables()
+    ty, syn = resolved_names(tb, case)
+    near = [c for c in gen_table(tb) if c['syntax'] == syn and (case.get('sec') is None or c.get('sec') == case.get('sec'))]
+    if not near:
+        near = [c for c in gen_table(tb) if c['syntax'] in ('html', 'css', 'zzz')]
+    near.sort(key=lambda c: resolved_names(tb, c)[0] == ty)      # the other abbreviation type first
+    for c in near:
+        if c == case:
+            continue
+        r = observe(tb, c)
+        if r['fatal']:
+            tb.restore()
     res = observe(tb, case)
     if res['failures']:
+        print('holds when the call is made alone in a fresh process, FAILS after %d other configurations were resolved / '
+              'expanded in the same process (the result depends on earlier calls):' % len(near))
         for clause, text in res['failures'][:5]:
             print('%s: %s' % (clause, text))
         return 1
